@@ -210,10 +210,16 @@ impl<T: Qcow2IoOps> Qcow2Dev<T> {
                             let key = cache_off >> info.cluster_bits();
 
                             if let Entry::Vacant(slot) = cluster_map.entry(key) {
-                                let cls_map = self.new_cluster.read().await;
+                                // don't keep the map locked while waiting for the
+                                // cluster lock: its holder needs the map's write
+                                // lock for removing the cluster before it lets go
+                                let cluster = {
+                                    let cls_map = self.new_cluster.read().await;
+                                    cls_map.get(&key).cloned()
+                                };
                                 // keep this cluster locked, so that concurrent discard can
                                 // be avoided
-                                if let Some(cluster) = cls_map.get(&key) {
+                                if let Some(cluster) = cluster {
                                     let mut locked_cls = cluster.write().await;
 
                                     log::debug!(
